@@ -28,6 +28,12 @@ def _run_variant(pid, edits, repo=None):
         shutil.copytree(os.path.join(repo, "yastn"), os.path.join(tmp, "yastn"),
                         ignore=shutil.ignore_patterns("__pycache__", "*.pyc"))
         for rel, old, new in edits:
+            if rel == "@patch":
+                # a unified diff from the corpus of independently written behaviour-preserving refactorings (/verif/benign)
+                p = subprocess.run(["patch", "-p1", "-s", "--no-backup-if-mismatch", "-i", old], cwd=tmp, capture_output=True, text=True)
+                if p.returncode != 0:
+                    return "stale", None, f"patch {os.path.basename(old)} does not apply to the current tree"
+                continue
             path = os.path.join(tmp, rel)
             with open(path) as f:
                 src = f.read()
@@ -53,6 +59,10 @@ def _norm_edits(m):
 def sweep(pid, mod, verbose=True):
     mutants = [_norm_edits(m) for m in getattr(mod, "MUTANTS", [])]
     benign = [_norm_edits(b) for b in getattr(mod, "BENIGN", [])]
+    # corpus of behaviour-preserving refactorings written by independent sub-agents for the code this property is anchored in
+    import glob
+    for d in sorted(glob.glob(os.path.join(VERIF, "benign", pid, "*.diff"))):
+        benign.append((f"corpus {pid}/{os.path.basename(d)}", [("@patch", d, None)], None))
     res = {"mutants_generated": len(mutants), "mutants_detected": 0, "mutants_stale": 0, "weak": [],
            "benign_variants": len(benign), "benign_silent": 0, "noisy": [], "benign_stale": 0, "details": []}
     with ThreadPoolExecutor(max_workers=16) as ex:
